@@ -1107,6 +1107,11 @@ class Interp:
             return self.apply_contract(c, f, args, kwargs, node)
         if f.closure is not None or wants_inline:
             return self.run_function(f, args, kwargs)
+        # a callee without a contract is executed (its body is real code of the same repository): this keeps proofs
+        # robust against "extract helper" refactorings; callees whose bodies reach the OS stop at the first primitive
+        # that has no environment model (Unsupported -> undecided, never assumed harmless)
+        if f.node is not None and os.environ.get("VERIF_NO_AUTO_INLINE") != "1":
+            return self.run_function(f, args, kwargs)
         raise NoContract(f"NO-CONTRACT callee {key[0]}.{key[1]} (line {getattr(node, 'lineno', '?')})")
 
     def inline_stack(self):
